@@ -47,6 +47,13 @@ func (l *liveCase[C]) MarshalJSON() ([]byte, error) { return json.Marshal(l.cur.
 
 const slotBlock = 256 // cases per Enter/Leave of the watchdog slot
 
+// blockCount counts the cases a worker has run since it entered its slot
+// (0 = not entered); padded to a cache line of its own.
+type blockCount struct {
+	n int
+	_ [56]byte
+}
+
 type exhRunner[C any] struct {
 	h        *vk.H
 	t        *testing.T
@@ -56,7 +63,7 @@ type exhRunner[C any] struct {
 	cls      [][32]int64
 	slots    []slot
 	live     []*liveCase[C]
-	inBlk    []int // cases run since the worker entered its slot (0 = not entered)
+	inBlk    []blockCount
 	oldGC    int
 	oldLimit int64
 
@@ -68,7 +75,7 @@ type exhRunner[C any] struct {
 
 func newExh[C any](h *vk.H, t *testing.T, names []string, check func(C) (info, string)) *exhRunner[C] {
 	w := runtime.GOMAXPROCS(0)
-	e := &exhRunner[C]{h: h, t: t, names: names, check: check, cls: make([][32]int64, w), inBlk: make([]int, w)}
+	e := &exhRunner[C]{h: h, t: t, names: names, check: check, cls: make([][32]int64, w), inBlk: make([]blockCount, w)}
 	// The live heap is tiny and every case allocates a little, so with the
 	// default setting the collector runs thousands of times per second and
 	// its pauses serialise the workers.  Collect by a soft memory limit
@@ -96,7 +103,7 @@ func (e *exhRunner[C]) level(n int, decode func(i int) (C, bool)) bool {
 		}
 		var in info
 		e.live[w].cur.Store(&c)
-		if e.inBlk[w] == 0 {
+		if e.inBlk[w].n == 0 {
 			e.slots[w].Enter(e.live[w])
 		}
 		msg := vk.Guard(func() string {
@@ -104,9 +111,9 @@ func (e *exhRunner[C]) level(n int, decode func(i int) (C, bool)) bool {
 			in, m = e.check(c)
 			return m
 		})
-		if e.inBlk[w]++; e.inBlk[w] >= slotBlock {
+		if e.inBlk[w].n++; e.inBlk[w].n >= slotBlock {
 			e.slots[w].Leave()
-			e.inBlk[w] = 0
+			e.inBlk[w].n = 0
 		}
 		if msg != "" {
 			p := e.h.Fail(c, msg)
@@ -133,9 +140,9 @@ func (e *exhRunner[C]) level(n int, decode func(i int) (C, bool)) bool {
 		}
 	})
 	for w := range e.slots {
-		if e.inBlk[w] != 0 {
+		if e.inBlk[w].n != 0 {
 			e.slots[w].Leave()
-			e.inBlk[w] = 0
+			e.inBlk[w].n = 0
 		}
 	}
 	return !e.h.Failed()
